@@ -22,7 +22,12 @@ LeafPaths == {PathSeq[i] : i \in 1..NLeaves}
 Cls3 == {"public", "sensitive", "secret"}
 Ops4 == {"", "redact", "encrypt", "hmac-sha256"}
 Tag == [pi : 1..Len(PathSeq), cls : Cls3, op : Ops4]
-Vectors == {<<t>> : t \in Tag} \cup {<<q[1], q[2]>> : q \in {r \in Tag \X Tag : r[1].pi < r[2].pi}}
+CONSTANT MaxTags   \* 2 or 3
+Pairs == {r \in Tag \X Tag : r[1].pi < r[2].pi}
+Vectors == {<<t>> : t \in Tag} \cup {<<q[1], q[2]>> : q \in Pairs}
+           \cup (IF MaxTags >= 3 THEN {<<q[1], q[2], t>> : q \in Pairs, t \in {u \in Tag : u.pi = 8}} \cup   \* a dangling third tag
+                                      {<<q[1], q[2], t>> : q \in {r \in Pairs : r[2].pi < 7}, t \in {u \in Tag : u.pi = 7 /\ u.op = ""}}
+                  ELSE {})
 
 NoOv == [c \in P!Classes |-> "unset"]
 TagAt(tv, p) == {i \in 1..Len(tv) : PathSeq[tv[i].pi] = p}
